@@ -1,6 +1,7 @@
 """C18 — attribute and key views of a simfile or chart never disagree (CrossHair harness, one inductive step)."""
 import copy
 import xhlib
+from xhlib import L1, L2, L3, L4
 from xhlib import record, gaps_blank
 from simfile.sm import SMSimfile, SMChart, SM_CHART_PROPERTIES
 from simfile.ssc import SSCSimfile, SSCChart
@@ -30,7 +31,7 @@ def _new(kind):
 def step(case: int, op: int, p_std: bool, p_alias: bool, p_x: bool, p_y: bool, rot: int, rev: bool, vs: str, va: str, vx: str, nv: str) -> bool:
     """
     pre: 0 <= case < len(CASES) and 0 <= op < NOPS and 0 <= rot < 4
-    pre: len(vs) <= 1 and len(va) <= 1 and len(vx) <= 1 and len(nv) <= 1
+    pre: len(vs) <= L1 and len(va) <= L1 and len(vx) <= L1 and len(nv) <= L1
     post: _
     """
     global LAST
@@ -167,7 +168,7 @@ SMOPS = 14
 def smchart_step(op: int, i: int, v: str, f0: str) -> bool:
     """
     pre: 0 <= op < SMOPS and 0 <= i < 6
-    pre: len(v) <= 2 and len(f0) <= 2 and f0 == f0.strip()
+    pre: len(v) <= L2 and len(f0) <= L2 and f0 == f0.strip()
     post: _
     """
     global LAST
